@@ -30,7 +30,11 @@ NONTRIV = {
 def shape_case(drv, case, prop, cached=False):
     """Runs one case; returns the driver response.  Raises Violation for labels of `prop` (and sanitizer
     reports when prop == 'C02'); other properties' labels are returned for the evidence."""
-    if case['kind'] == 'spec':
+    if case['kind'] == 'raw':
+        import base64
+        font = base64.b64decode(case['font_b64'])          # a self-contained font (e.g. a corrupted-but-accepted one found by the sweep)
+        src, opts = case.get('src', 0), case.get('opts', 0)
+    elif case['kind'] == 'spec':
         try:
             font = fontsynth.build_font(case['spec'])
         except (ValueError, KeyError, IndexError, struct.error):
